@@ -53,6 +53,10 @@ func (e *Exec) loopEnv(st *State, pos token.Pos, extra map[string]Val) *cenv {
 	if st.anchor != nil {
 		env.old = st.anchor
 	}
+	if n := len(e.visitedStack); n > 0 {
+		fn := e.visitedStack[n-1]
+		env.visited = func(k Term) Term { return fn(st, k) }
+	}
 	env.resolve = func(name string, s *State) (Val, bool) {
 		sc := pkg.Types.Scope().Innermost(pos)
 		for sc != nil {
